@@ -119,6 +119,11 @@ func (c *syncMap) ExpireAll(ctx context.Context) {
 		return true
 	})
 
+	if cnt > 0 {
+		// Entries have expirations now, delete expired job has to check them even with UnlimitedTTL.
+		atomic.AddInt64(&c.t.expirationsSet, 1)
+	}
+
 	c.t.NotifyExpiredAll(ctx, start, cnt)
 }
 
